@@ -21,6 +21,7 @@ structure Env where
   ctx : Ctx
   ndebug : Bool
   screenCols : Option Nat    -- `get_screen_cols` (none unless stdout is a tty with COLUMNS)
+  images : List Bytes := []  -- the names given with --file (`DFSContext::image_file_names`)
 
 structure Out where
   out : Bytes := []
@@ -601,6 +602,10 @@ def cmdSectorMap (env : Env) (args : List Bytes) : CmdRes :=
     | some (n, e) => if e != a.length then failErr else go n
   | _ => failErr
 
+/-- `is_image_file`: the model compares path strings; the code asks the file system whether the two
+    names are the same file (`std::filesystem::equivalent`), which also covers links and other spellings -/
+def Env.isImageFile (env : Env) (path : Bytes) : Bool := env.images.contains path
+
 def destDir (a : Bytes) : Bytes := if a.getLast? == some 47 then a else a ++ [47]
 
 /-- maximal runs of unowned sectors below `last` : (first, end-exclusive) -/
@@ -621,6 +626,17 @@ def spanContent (m : Media) : Nat → Nat → List Bytes → Bytes × Bool
     | none => (acc.reverse.flatten, true)
     | some s => spanContent m k (sec + 1) (s :: acc)
 
+/-- the span loop of extract-unused: files written (in order), whether a short span was warned about,
+    and whether the loop ran to completion (false: a file name is that of an image file) -/
+def unusedLoop (env : Env) (dest : Bytes) (m : Media) : List (Nat × Nat) → List (Bytes × Bytes) → Bool → List (Bytes × Bytes) × Bool × Bool
+  | [], files, warned => (files, warned, true)
+  | (b, e) :: rest, files, warned =>
+    let path := dest ++ strBytes "unused_" ++ padLeft 3 48 (hexU b) ++ strBytes ".bin"
+    if env.isImageFile path then (files, warned, false)
+    else
+      let (content, w) := spanContent m (e - b) b []
+      unusedLoop env dest m rest (files ++ [(path, content)]) (warned || w)
+
 def cmdExtractUnused (env : Env) (args : List Bytes) : CmdRes :=
   if env.ctx.vol.subvol.isSome then failErr
   else match args with
@@ -637,11 +653,11 @@ def cmdExtractUnused (env : Env) (args : List Bytes) : CmdRes :=
       match fs.discSectorCount with
       | .ok last =>
         let spans := unusedSpans (sectorMapOf fs surface) last
-        let written := spans.map fun (b, e) =>
-          let (content, warned) := spanContent m (e - b) b []
-          ((dest ++ strBytes "unused_" ++ padLeft 3 48 (hexU b) ++ strBytes ".bin", content), warned)
-        .done true { out := decU (spans.length % 65536) ++ strBytes " files were written to " ++ dest ++ [10],
-                     err := written.any (·.2), files := written.map (·.1) }
+        match unusedLoop env dest m spans [] false with
+        | (files, warned, true) =>
+          .done true { out := decU (spans.length % 65536) ++ strBytes " files were written to " ++ dest ++ [10],
+                       err := warned, files := files }
+        | (files, _, false) => .done false { err := true, files := files }     -- would overwrite an image file
       | _ => .threw { err := true }
   | _ => failErr
 
@@ -665,10 +681,13 @@ def extractName (ctxDir : Nat) (e : Entry) : Bytes :=
   (if e.directory == ctxDir then rtrimB e.nameStr else [e.directory, 46] ++ rtrimB e.nameStr).map
     (fun c => if c == 47 then 95 else c)
 
-def extractLoop (dest : Bytes) (ctxDir : Nat) (data : Media) : List Entry → List (Bytes × Bytes) → CmdRes
+def extractLoop (env : Env) (dest : Bytes) (ctxDir : Nat) (data : Media) : List Entry → List (Bytes × Bytes) → CmdRes
   | [], files => .done true { files := files }
   | e :: rest, files =>
     let path := dest ++ extractName ctxDir e
+    if env.isImageFile path || env.isImageFile (path ++ strBytes ".inf") then
+      .done false { err := true, files := files }      -- would overwrite an image file: refused
+    else
     match bodyPieces e data with
     | none =>
       -- the body file has been created; the pieces read before the failure were written
@@ -676,7 +695,7 @@ def extractLoop (dest : Bytes) (ctxDir : Nat) (data : Media) : List Entry → Li
         [(path, (bodyPrefix data (e.lastSector + 1 - e.startSector) e.startSector e.fileLength []).flatten)] }
     | some pieces =>
       let body := pieces.flatten
-      extractLoop dest ctxDir data rest
+      extractLoop env dest ctxDir data rest
         (files ++ [(path, body), (path ++ strBytes ".inf", infContent e (crc16 0 body))])
 
 def cmdExtractFiles (env : Env) (args : List Bytes) : CmdRes :=
@@ -688,7 +707,7 @@ def cmdExtractFiles (env : Env) (args : List Bytes) : CmdRes :=
     | .fail => failErr
     | .threw => .threw { err := true }
     | .abort s => .abort {} s
-    | .ok _ v m => extractLoop (destDir a) env.ctx.dir (v.data m) v.cat.entries []
+    | .ok _ v m => extractLoop env (destDir a) env.ctx.dir (v.data m) v.cat.entries []
   | _ => failErr
 
 /-! ### show-titles -/
